@@ -17,6 +17,12 @@ pub const NS: [(&str, &str); 6] = [("", "qpub"), ("ns-a", "qnsa"), ("ns-b", "qns
 pub const DATA_NS: usize = 4;
 pub const EXISTING_NS: usize = 5;
 
+/// endpoints that take a LIST of items, each naming its own namespace: with variant bit 1 the request names one item
+/// of every namespace that holds data (the target's first, or last with bit 0)
+pub fn names_several_namespaces(ep_id: &str, variant: u8) -> bool {
+    variant & 2 != 0 && matches!(ep_id, "v1.config_download.bykeys" | "v2.toolspec_batch.create")
+}
+
 pub fn ns_of_tag(tag: &str) -> Option<&'static str> {
     NS.iter().find(|(_, t)| *t == tag).map(|(id, _)| *id)
 }
@@ -486,7 +492,20 @@ pub fn build(ep: &Ep, t: &Target) -> Req {
             if let Some(ns) = &t.ns {
                 k["tenant"] = json!(ns);
             }
-            r.json(json!([k]))
+            let mut list = vec![k];
+            if names_several_namespaces(ep.id, t.variant) {
+                // one key of every other namespace that holds data; bit 0: the target's key comes last
+                for (i, (ns, tg)) in NS.iter().enumerate().take(DATA_NS) {
+                    if i != t.idx {
+                        let (g, d) = cfg_id(tg, 1);
+                        list.push(json!({"dataId": d, "group": g, "tenant": ns}));
+                    }
+                }
+                if alt {
+                    list.rotate_left(1);
+                }
+            }
+            r.json(json!(list))
         }
         "v1.config_import.create" | "v2.config_import.create" => {
             let mut r = set_ns(r, ep, t, None, vec![]);
@@ -624,7 +643,18 @@ pub fn build(ep: &Ep, t: &Target) -> Req {
             if let Some(ns) = &t.ns {
                 p["namespace"] = json!(ns);
             }
-            r.json(json!([p]))
+            let mut list = vec![p];
+            if names_several_namespaces(ep.id, t.variant) {
+                for (i, (ns, _)) in NS.iter().enumerate().take(DATA_NS) {
+                    if i != t.idx {
+                        list.push(json!({"group": "tg", "toolName": "tbatch.wr", "function": tool_function("tbatch.wr", "written"), "namespace": ns}));
+                    }
+                }
+                if alt {
+                    list.rotate_left(1);
+                }
+            }
+            r.json(json!(list))
         }
         "v2.toolspec_import.create" => {
             let yaml = "group: tg\nname: timp.wr\ndescription: imported\ninputSchema:\n  type: object\n";
